@@ -216,7 +216,7 @@ def _cfg(tier, seed):
     out = []
     S = [((1, 2), [0, 0, 1]), ((2, 2), [3, 0, 3, 0]), ((1, 3), [2, 0, 2])]
     if tier == "thorough":
-        S += [((2, 2), [2, 2, 2, 1, 1]), ((2, 1), [1, 1, 0, 1]), ((2, 3), [5, 0, 5, 2, 0])]
+        S += [((2, 2), [2, 2, 2, 1, 1]), ((2, 1), [1, 1, 0, 1]), ((2, 3), [5, 0, 5, 2, 0]), ((2, 3), [4, 1, 4, 1, 4, 0]), ((3, 3), [8, 0, 4, 4, 8, 2])]
     for shape, members in S:
         for red in ("sum", "min", "median", "mean", "max") if tier == "thorough" else ("sum", "median", "mean"):
             if tier == "quick" and (shape, red) not in (((1, 2), "sum"), ((2, 2), "median"), ((1, 3), "mean"), ((2, 2), "sum")):
@@ -250,7 +250,7 @@ HARNESSES = [
         "blockreduce_filter",
         h_blockreduce,
         _cfg,
-        bounds="3-5 points with symbolic coordinates strictly inside enumerated blocks of a symbolic region (layouts 1x2, 2x2, 1x3, 2x1, 2x3; empty blocks, single-member blocks, non-ascending first appearance), symbolic data (1-3 components), positive symbolic weights, a symbolic extra coordinate; reductions sum/min/max/median/mean/weighted average; center_coordinates and drop_coords on/off; 1-D and 2x2 inputs; shape or spacing",
+        bounds="3-5 (quick) / up to 6 (thorough) points with symbolic coordinates strictly inside enumerated blocks of a symbolic region (layouts 1x2, 2x2, 1x3, 2x1, 2x3; empty blocks, single-member blocks, non-ascending first appearance), symbolic data (1-3 components), positive symbolic weights, a symbolic extra coordinate; reductions sum/min/max/median/mean/weighted average; center_coordinates and drop_coords on/off; 1-D and 2x2 inputs; shape or spacing",
         stubs=["verde.blockreduce.block_split -> C08 contract"],
         extra_globals=_globals,
         engine={"oneshot": True},
